@@ -8,6 +8,9 @@ import (
 	"regexp"
 	"strconv"
 	"strings"
+	"sync"
+	"sync/atomic"
+	"time"
 
 	"github.com/bufbuild/protocompile/verifhooks"
 )
@@ -175,6 +178,13 @@ func (decimalEngine) Exec(op string) string {
 			return "bad-op"
 		}
 		return strconv.Itoa(verifhooks.DecimalLog10(x))
+	case w[0] == "conc64" && len(w) == 3:
+		seed, err1 := strconv.ParseUint(w[1], 10, 64)
+		ms, err2 := strconv.Atoi(w[2])
+		if err1 != nil || err2 != nil || ms < 1 || ms > 20000 {
+			return "bad-op"
+		}
+		return decConc64(seed, time.Duration(ms)*time.Millisecond)
 	case w[0] == "f64" && len(w) == 2 && w[1] != "":
 		z, st, ek := verifhooks.DecimalParse(w[1])
 		if ek != "" {
@@ -185,6 +195,66 @@ func (decimalEngine) Exec(op string) string {
 			st.Exp, st.Digits, bits, decB01(exact), decRef(w[1]))
 	}
 	return "bad-op"
+}
+
+// decConc64: 4×GOMAXPROCS goroutines (so that goroutines are preempted in the middle of a
+// conversion) each convert their OWN long numeral (mantissa far above 2^53: the path through the
+// shared buffer pool and strconv) over and over for the given time; every result must be the one
+// the same goroutine got when it ran alone. A conversion must not depend on who else is
+// converting. Answer: "ok" or "differs <numeral prefix> alone=<bits> concurrent=<bits>".
+func decConc64(seed uint64, d time.Duration) string {
+	r := NewRand(seed)
+	n := 64
+	nums := make([]string, n)
+	alone := make([]string, n)
+	for i := range nums {
+		var b strings.Builder
+		digits := 900 + r.Intn(2400)
+		b.WriteByte(byte('1' + r.Intn(9)))
+		for j := 1; j < digits; j++ {
+			b.WriteByte(byte('0' + r.Intn(10)))
+			if j == digits/3 && i%2 == 0 {
+				b.WriteByte('.')
+			}
+		}
+		fmt.Fprintf(&b, "e%d", r.Intn(600)-300-digits/2)
+		nums[i] = b.String()
+		z, _, ek := verifhooks.DecimalParse(nums[i])
+		if ek != "" {
+			return "bad-op numeral rejected: " + ek
+		}
+		bits, exact := verifhooks.DecimalFloat64(z)
+		alone[i] = fmt.Sprintf("%016x/%s", bits, decB01(exact))
+	}
+	var bad atomic.Pointer[string]
+	var wg sync.WaitGroup
+	deadline := time.Now().Add(d)
+	for i := 0; i < n; i++ {
+		wg.Add(1)
+		go func(i int) {
+			defer wg.Done()
+			defer func() {
+				if p := recover(); p != nil {
+					m := fmt.Sprintf("differs %.24s alone=%s concurrent=panic:%v", nums[i], alone[i], p)
+					bad.CompareAndSwap(nil, &m)
+				}
+			}()
+			for it := 0; bad.Load() == nil && (it%16 != 0 || time.Now().Before(deadline)); it++ {
+				z, _, _ := verifhooks.DecimalParse(nums[i])
+				bits, exact := verifhooks.DecimalFloat64(z)
+				if got := fmt.Sprintf("%016x/%s", bits, decB01(exact)); got != alone[i] {
+					m := fmt.Sprintf("differs %.24s alone=%s concurrent=%s", nums[i], alone[i], got)
+					bad.CompareAndSwap(nil, &m)
+					return
+				}
+			}
+		}(i)
+	}
+	wg.Wait()
+	if m := bad.Load(); m != nil {
+		return Canon(*m)
+	}
+	return "ok"
 }
 
 func (decimalEngine) Trivial(op, ans string) bool {
@@ -381,6 +451,11 @@ func (decimalEngine) Gen(r *Rand, tier string) [][]string {
 		for i := 0; i <= n; i++ {
 			g.add(fmt.Sprintf("table %s %d", t, i))
 		}
+	}
+
+	// ---- conversions of long numerals by many goroutines at once (shared buffer pool)
+	for i := 0; i < scale(2, 12); i++ {
+		g.add(fmt.Sprintf("conc64 %d 1500", r.Intn(1<<30)))
 	}
 
 	// ---- hand-picked boundary numerals first (every known failure class shows up early)
